@@ -37,10 +37,11 @@ def mid_of(n):
     return "0A" + urlsafe_b64encode(b"\0\0" + raw)[2:].decode()
 
 
-def memoer_class():
-    from hio.core.memo.memoing import Memoer
+def memoer_class(auth=False):
+    from hio.core.memo.memoing import Memoer, AuthMemoer
+    Base = AuthMemoer if auth else Memoer
 
-    class VMemoer(Memoer):
+    class VMemoer(Base):
         """Real Memoer; verify is wrapped to log (vid, sig, ser) -> outcome; makeMID is deterministic."""
         def __init__(self, **kwa):
             super().__init__(**kwa)
@@ -90,12 +91,16 @@ def rend(memo, code="bAAA", curt=False, size=None, vid=None, mid=None, keepmode=
     return [bytes(g) for g in m.rend(memo, vid)], m.size
 
 
-def new_receiver(authic, keepmode="full", **cfg):
+def new_receiver(authic, keepmode="full", rxclass=None, **cfg):
     """cfg: the receiver's own transmit settings (code, curt, size), which must not matter for receiving"""
     import logging
     logging.disable(logging.CRITICAL)
     keep, _ = keep_and_vids(keepmode)
-    m = memoer_class()(authic=authic, keep=keep, **cfg)
+    if rxclass == "auth":            # AuthMemoer forces authic=True (and a signed code unless one is given)
+        m = memoer_class(auth=True)(keep=keep, **cfg)
+        assert m.authic
+    else:
+        m = memoer_class()(authic=authic, keep=keep, **cfg)
     m.opened = True
     m._echoic = True
     return m
